@@ -255,11 +255,11 @@ def _program_choice(rng):
         cor = c20.corpus()["ok"]
         path = rng.choice(sorted(cor))
         goals = rng.sample(cor[path]["goals"], min(len(cor[path]["goals"]), rng.choice([1, 2, 2])))
-        return {"path": path}, goals, path, None
+        return {"path": path}, goals, path, None, None
     if r < 0.3:
         prog, goals = delay_line_program(rng)
         text = render_program(prog, rng.choice(["frac", "frac", "minimal"]))
-        return {"text": text}, goals[:1] + rng.sample(goals[1:], min(len(goals) - 1, 2)), "dly:" + hashlib.sha256(text.encode()).hexdigest()[:10], "delay"
+        return {"text": text}, goals[:1] + rng.sample(goals[1:], min(len(goals) - 1, 2)), "dly:" + hashlib.sha256(text.encode()).hexdigest()[:10], "delay", prog
     if r < 0.5:
         prog, goals, squares = linear_system_program(rng)
         text = render_program(prog, rng.choice(["frac", "frac", "minimal"]))
@@ -267,18 +267,18 @@ def _program_choice(rng):
         if squares and rng.random() < 0.3:
             goals.append(f"{goals[0]}**2")
         # three-variable blocks have cubic characteristic polynomials whose roots sympy keeps as CRootOf objects
-        return {"text": text}, goals, "lin:" + hashlib.sha256(text.encode()).hexdigest()[:10], ("cubic" if "z" in text.split("while")[0] else "linear")
+        return {"text": text}, goals, "lin:" + hashlib.sha256(text.encode()).hexdigest()[:10], ("cubic" if "z" in text.split("while")[0] else "linear"), prog
     if r < 0.7:
         prog, goals = categorical_program(rng)
         text = render_program(prog, rng.choice(["frac", "frac", "minimal"]))
-        return {"text": text}, goals[:1] + rng.sample(goals[1:], min(len(goals) - 1, 2)), "cat:" + hashlib.sha256(text.encode()).hexdigest()[:10], "categorical"
+        return {"text": text}, goals[:1] + rng.sample(goals[1:], min(len(goals) - 1, 2)), "cat:" + hashlib.sha256(text.encode()).hexdigest()[:10], "categorical", prog
     if r < 0.8:
         prog, goals = modular_counter_program(rng)
         text = render_program(prog, rng.choice(["frac", "frac", "minimal"]))
-        return {"text": text}, goals, "mod:" + hashlib.sha256(text.encode()).hexdigest()[:10], "branchy"
+        return {"text": text}, goals, "mod:" + hashlib.sha256(text.encode()).hexdigest()[:10], "branchy", prog
     prog, goals = branchy_program(rng)
     text = render_program(prog, rng.choice(["frac", "frac", "minimal"]))
-    return {"text": text}, goals, "gen:" + hashlib.sha256(text.encode()).hexdigest()[:10], "branchy"
+    return {"text": text}, goals, "gen:" + hashlib.sha256(text.encode()).hexdigest()[:10], "branchy", prog
 
 
 def gen_case(seed, extra=None):
@@ -288,11 +288,19 @@ def gen_case(seed, extra=None):
     progs = [_program_choice(rng) for _ in range(nprog)]
     if nprog >= 2 and rng.random() < 0.3:
         progs.append(progs[0])
+    side = _random.Random(f"sibling|{seed}")        # its own stream: the other decisions of the case do not move
+    if nprog >= 2 and progs[0][4] is not None and side.random() < 0.4:
+        # the second program is a sibling of the first: same names, same conditions, other value sets / parameters
+        # (what a memo keyed by name or condition and kept between the programs of a process gets wrong)
+        sib = gen.sibling(progs[0][4], side)
+        if sib is not None:
+            text = render_program(sib, side.choice(["frac", "frac", "minimal"]))
+            progs[1] = ({"text": text}, progs[0][1], "sib:" + hashlib.sha256(text.encode()).hexdigest()[:10], progs[0][3], sib)
     kinds = [p[3] for p in progs]
     bias = "delay" if "delay" in kinds and rng.random() < 0.8 else rng.choice(kinds)
     vec = option_vector(rng, bias)
     sessions = []
-    for program, goals, pid, _ in progs:
+    for program, goals, pid, _, _ast in progs:
         sessions.append({"kind": "lib", "pid": pid, "program": program, "goals": [{"monom": g, "kind": "raw"} for g in goals],
                          "api": "raw" if vec.get("_force_cyclic") or rng.random() < 0.5 else "common"})
     from .sessions import make_session
